@@ -54,6 +54,14 @@ def configs(thorough: bool) -> List[Dict[str, Any]]:
             adj = dict(cfg)
             adj["ram_overlays"] = [(0x50000, 0x10), (0x50010, 0x10)]     # two adjacent RAM overlays: accesses may span both
             out.append(adj)
+        if ovl and ro and not rom and not mirror:
+            ino = dict(cfg)
+            ino["ram_overlays"] = [(0x01FF0, 0x20)]       # a RAM overlay straddling the end of the read-only range 0..0x1FFF
+            out.append(ino)
+        if ovl and not rom and not mirror and not ro and card is None:
+            und = dict(cfg)
+            und["underlay"] = True      # the external bytes under the overlays were written before the overlays were installed
+            out.append(und)
         if card and not rom and not ovl and not mirror and not ro:
             roc = dict(cfg)
             roc["card_writable"] = False       # read-only card (Python only: the Rust image has no such switch)
@@ -86,6 +94,10 @@ def make_py(cfg) -> PCE500Memory:
             if card not in _CARD_CACHE:
                 _CARD_CACHE[card] = bytes(((i & 0xFF) ^ 0x5A) for i in range(card))
             m.load_memory_card(_CARD_CACHE[card], card, writable=cfg.get("card_writable", True))
+    if cfg.get("underlay"):
+        for start, size in list(cfg.get("ram_overlays", [])) + list(cfg.get("rom_overlays", [])):
+            for k in range(size):
+                m.write_byte(start + k, 0xE1 ^ (k & 0xFF))
     for i, (start, size) in enumerate(cfg.get("ram_overlays", [])):
         m.add_ram(start, size, f"ramov{i}")
     for i, (start, size) in enumerate(cfg.get("rom_overlays", [])):
@@ -218,6 +230,8 @@ def judge(impl, cfg, hist, outs, probe_vals, pr, vb: VB, pre_probe: Optional[Lis
     cfgtag = "+".join(k for k in ("rom_image", "rom_len", "card", "ram_overlays", "readonly", "mirror") if cfg.get(k)) or "plain"
     if cfg.get("card_writable") is False:
         cfgtag += "+card-readonly"
+    if cfg.get("underlay"):
+        cfgtag += "+underlay"
     if pre_probe is None:
         ref_outs, ref_probe, r = run_ref(cfg, hist, pr, impl)
         for i, (a, b) in enumerate(zip(outs, ref_outs)):
@@ -384,12 +398,12 @@ def run(ctx) -> None:
     jobs = []
     n = nproc()
     for impl in ("python", "rust"):
-        use = [c for c in cfgs if (impl == "rust" and not c.get("rom_len") and c.get("card_writable", True)) or (impl == "python" and not (c.get("mirror") or c.get("readonly")))]
+        use = [c for c in cfgs if (impl == "rust" and not c.get("rom_len") and c.get("card_writable", True) and not c.get("underlay")) or (impl == "python" and not (c.get("mirror") or c.get("readonly")))]
         for cs in chunks(use, n):
             jobs.append((impl, cs, evs, small if not ctx.thorough else evs[::2], depth))
     res = pmap(_shard, jobs)
     lres = pmap(_loads, [(impl, cs) for impl in ("python", "rust")
-                         for cs in chunks([c for c in cfgs if (impl == "rust" and not c.get("rom_len") and c.get("card_writable", True)) or (impl == "python" and not (c.get("mirror") or c.get("readonly")))], 4)])
+                         for cs in chunks([c for c in cfgs if (impl == "rust" and not c.get("rom_len") and c.get("card_writable", True) and not c.get("underlay")) or (impl == "python" and not (c.get("mirror") or c.get("readonly")))], 4)])
     for r in res + lres:
         ctx.merge_bucket(r["vb"])
     ctx.level = "model_checking"
